@@ -27,8 +27,18 @@ deriving DecidableEq, Repr
 
 abbrev InsE (D : Type) := Rp → Nat → M D ((Rp × Bool) × List Ev)
 
+/-- the functions of `setu64.rs` / `setu32.rs` that call the allocator directly, in source order: the sites
+    this reading accounts for (`Proofs/Consts.lean` proves the current source has exactly these) -/
+def allocSites (fresh : Bool) : List (String × String) :=
+  [("clone", "alloc_zeroed"), ("with_capacity_of", "alloc_zeroed")] ++
+  (if fresh then [] else [("dense_increase_mx", "realloc")]) ++
+  [("dense_with_max", "alloc_zeroed"), ("with_capacity_and_bits", "alloc_zeroed"), ("drop", "dealloc")]
+
 section
 variable (c : Cfg) (fresh : Bool) {D : Type} (g : Rng D)
+
+/-- alignment passed with every request and release (`layout_for_capacity`) -/
+def alignBytes : Nat := c.W / 8
 
 /-- the request made when a value that owns a block is created -/
 def allocEv : Rp → List Ev
